@@ -363,7 +363,8 @@ func init() {
 					delivered[s][p] = true
 				}
 			}
-			for s, sent := range w.downSent {
+			for s := 0; s < len(w.scheds); s++ {
+				sent := w.downSent[s]
 				sched := w.scheds[s]
 				lossAllowed := sched == schedGap61 || sched == schedGap95
 				for _, p := range sent {
@@ -380,7 +381,11 @@ func init() {
 				}
 			}
 			// C18: address looked up at accept time
-			for s, a := range w.accepted {
+			for s := 0; s < len(w.scheds); s++ {
+				a, wasAccepted := w.accepted[s]
+				if !wasAccepted {
+					continue
+				}
 				ok := false
 				var mine []string
 				for _, c := range w.carriers {
